@@ -269,7 +269,9 @@ package server
 // ghost.active[p][g]: the cancel channel of the running, not yet cancelled subscription loop of group g
 // on partition p (nil if none). Lock invariant of consumersMu: that loop's subscription is the one in the table.
 //@ ghost var active ghostmap[*partition]ghostmap[string]chan struct{}
-//@ lockinv partition.consumersMu guards consumers, ghost.active serves C13: self.consumers != nil && forall g string :: ghost.active[self][g] != nil ==> (g in self.consumers) && self.consumers[g] != nil && allocated(self.consumers[g]) && self.consumers[g].sub != nil && allocated(self.consumers[g].sub) && self.consumers[g].sub.closed == ghost.active[self][g]
+// ghost.activeEpoch[p][g]: the group epoch that subscription was admitted with
+//@ ghost var activeEpoch ghostmap[*partition]ghostmap[string]uint64
+//@ lockinv partition.consumersMu guards consumers, ghost.active, ghost.activeEpoch serves C13: self.consumers != nil && forall g string :: ghost.active[self][g] != nil ==> (g in self.consumers) && self.consumers[g] != nil && allocated(self.consumers[g]) && self.consumers[g].sub != nil && allocated(self.consumers[g].sub) && self.consumers[g].sub.closed == ghost.active[self][g] && self.consumers[g].groupEpoch == ghost.activeEpoch[self][g]
 
 // Subscribe: an older epoch is refused with table and active subscription untouched; otherwise the
 // previous member is cancelled before the new loop starts, and the new loop's subscription is registered.
@@ -278,6 +280,8 @@ package server
 //@   requires p != nil && req != nil
 //@   ghost after call Close: ghost.active[p][groupID] := (ghost.active[p][groupID] == arg0.closed ? nil : ghost.active[p][groupID])
 //@   ghost after call startGoroutine: ghost.active[p][groupID] := cancel if groupID != ""
+//@   ghost after call startGoroutine: ghost.activeEpoch[p][groupID] := groupEpoch if groupID != ""
+//@   call Close requires [active-epoch-not-newer] ghost.active[p][groupID] == nil || ghost.activeEpoch[p][groupID] <= groupEpoch
 //@   call startGoroutine requires [previous-cancelled-first] groupID == "" || ghost.active[p][groupID] == nil
 //@   call Close requires [only-with-newer-or-equal-epoch] arg0 == p.consumers[groupID].sub && p.consumers[groupID].groupEpoch <= groupEpoch
 
